@@ -1897,6 +1897,20 @@ class Signature:
                     param_dict[param.name] = param
                     i += 1
                 else:
+                    if simple_members:
+                        # These extra positional arguments are required, so the
+                        # parameters before them must be passed, and passed
+                        # positionally.
+                        for prev_name, prev_param in list(param_dict.items()):
+                            if prev_param.kind in (
+                                ParameterKind.POSITIONAL_ONLY,
+                                ParameterKind.POSITIONAL_OR_KEYWORD,
+                            ):
+                                param_dict[prev_name] = replace(
+                                    prev_param,
+                                    kind=ParameterKind.POSITIONAL_ONLY,
+                                    default=None,
+                                )
                     for member in simple_members:
                         name = f"@{i}"
                         param_dict[name] = SigParameter(
